@@ -9,6 +9,8 @@ requests
         k = <v|n>:<f64|f32|i64|i32|other>:<c|s>   (viewable / not, dtype, C-contiguous / strided) for caller 0,1,...
         event = name(a,a,...) ; a = <callerindex or ->:<W|R>
   safe <wrapper> [allowed caller indices]  -> true | false
+  kernels                                  -> names of every kernel called by a modelled wrapper
+  mark <wrapper> [k0,...]                  -> ok [caller indices whose CONTENTS change under the marking contents semantics (mrun)]
 -/
 
 def dtypeOf? : String → Option DType
@@ -43,6 +45,13 @@ def handle (toks : List String) : String :=
       let st := run p (fun i => ks.getD i ⟨false, .other, false⟩)
       let evs := if st.events.isEmpty then "-" else "|".intercalate (st.events.map fmtEvent)
       s!"ok {evs} written={fmtNatList (dedupSorted (writtenCallers st))}"
+    | _, _ => "bad-op"
+  | ["kernels"] => ",".intercalate ((wrappers.flatMap fun w => kernelsOf w.2).eraseDups)
+  | ["mark", name, kinds] =>
+    match wrappers.lookup name, allSome ((listToks kinds).map kindOf?) with
+    | some p, some ks =>
+      if ks.length < 10 then "bad-op kinds" else
+      "ok " ++ fmtNatList (markedCallers p (fun i => ks.getD i ⟨false, .other, false⟩) 10)
     | _, _ => "bad-op"
   | ["safe", name, allowed] =>
     match wrappers.lookup name, parseNatList? allowed with
